@@ -6,6 +6,12 @@ CLAIMS = {
  'C07': dict(cat='other', ref='DESIGN.md §2 C07',
    text='All-paths static rules on parsec_update_deps_with_{counter,mask}: readiness verdict computed from the result of exactly one atomic RMW per path (post-value), goal provenance, and the atomic wrapper table re-derived from atomic.h/atomic-gcc.h. A statement about every CFG path, hence every interleaving through these functions; not a proof of the protocol.',
    tech='path-sensitive value-flow over clang CFG + affine normal form (custom LibTooling extractor)'),
+ 'C10': dict(cat='other', ref='DESIGN.md §2 C10',
+   text='All-paths static rules on the local termination detector: termination_detected reachable only through the success edge of CAS(BUSY->TERMINATING); monitor word written only by initialisation and the three legal CAS transitions; each attempt guarded by a zero test of the post-value of the pending-action update made on the same path; zero-crossing coupling of nb_tasks and nb_pending_actions identical in set_/addto_nb_tasks; callback -> TERMINATED -> release order. Necessary conditions for exactness under every interleaving, not the interleaving proof.',
+   tech='dominator / path-sensitive value-flow rules over clang CFG; CAS transition table; sibling agreement'),
+ 'C25': dict(cat='other', ref='DESIGN.md §2 C25',
+   text='GUARDED_BY lockset analysis for usagecnt/usagelmt/retained (bucket lock held on all paths, fresh-allocation exception), free-after-remove and reclaim-guard (limit == post-value of count AND not retained) dominance rules, lock pairing on all exits, retain/release counting per path in datarepo.c.',
+   tech='lockset typestate + dominator rules + per-path counting over clang CFG'),
 }
 
 NOT_APPLICABLE = {
